@@ -135,9 +135,10 @@ func Start(cfg Config) *Session {
 		if sys.Machineprocs == 0 {
 			sys.Machineprocs = 2
 		}
-		sys.KeepalivePeriod = 500 * time.Millisecond
-		sys.KeepaliveTimeout = time.Second
-		sys.KeepaliveRpcTimeout = 500 * time.Millisecond
+		// failure-free runs: generous keepalives, so that a busy host does not fake a machine loss
+		sys.KeepalivePeriod = time.Second
+		sys.KeepaliveTimeout = 20 * time.Second
+		sys.KeepaliveRpcTimeout = 10 * time.Second
 		s.System = sys
 		opts = append(opts, exec.Bigmachine(sys))
 	default:
